@@ -19,6 +19,7 @@ var files = []genFile{
 	{"NumericSimp.lean", genNumericSimp},
 	{"Tokens.lean", genTokens},
 	{"JsonTables.lean", genJsonTables},
+	{"SymFacts.lean", genSymFacts},
 }
 
 func main() {
